@@ -91,6 +91,9 @@ def cases(tier, seed):
         idx = g.choice(len(d3), size=min(900, len(d3)), replace=False)
         hist = d12 + [d3[i] for i in sorted(idx)]
     for i, h in enumerate(hist):
+        # how the context objects come into being: at the `with` statement; all built first and entered later; built first and
+        # the instance's likelihood replaced by the user before entering (the state "on entry" is what must come back)
+        h["prep"] = ["inline", "inline", "prepared", "inline", "reassigned"][i % 5]
         h["inst"] = ["fresh", "resumed", "fresh", "threadpool"][i % 4] if any(c.startswith("P") for c in h["nest"]) or i % 2 else ["fresh", "resumed"][i % 2]
     per = 60
     return [{"hists": hist[i : i + per], "seed": [seed, 19, i]} for i in range(0, len(hist), per)]
@@ -149,7 +152,7 @@ def run_history(h, g, counters, viol, t, data, files):
         a.fit(data)
     D = len(h["nest"])
     pools = {}
-    where = f"nest={h['nest']} body={h['body']} exception@{h['exc']} ({h['kind']}) instance={inst}"
+    where = f"nest={h['nest']} body={h['body']} exception@{h['exc']} ({h['kind']}) instance={inst} contexts={h.get('prep', 'inline')}"
     injected = {"exc": None}
     counters["histories"] += 1
 
@@ -178,11 +181,20 @@ def run_history(h, g, counters, viol, t, data, files):
             return a.auto_checkpoint(files["f1"], every=7, save_config=False, save_flow=False)
         return a.auto_checkpoint(files["f1"] if ctx == "K1" else files["f2"], every=1 if ctx == "K1" else 3)
 
+    prepared = {}
+    if h.get("prep") in ("prepared", "reassigned"):
+        for lv, c in enumerate(h["nest"]):
+            prepared[lv] = make(c, lv)
+        if h["prep"] == "reassigned":
+            a.log_likelihood = probe.log_likelihood_alt
+            counters["likelihood_reassigned_before_entry"] += 1
+        counters["contexts_built_ahead_of_entry"] += len(prepared)
+
     def level_run(level, in_pool):
         ctx = h["nest"][level]
         entry = snapshot(a)
         try:
-            with make(ctx, level):
+            with (prepared[level] if level in prepared else make(ctx, level)):
                 inp = in_pool or ctx.startswith("P")
                 act(level, inp)  # before the inner context
                 if level + 1 < D:
@@ -235,6 +247,10 @@ class MapProbe(Probe):
 
     def log_prior(self, samples, map_fn=map):
         return Probe.log_prior(self, samples)
+
+    def log_likelihood_alt(self, samples, map_fn=map):
+        """A second likelihood function of the same user (what they assign to the instance later on)."""
+        return MapProbe.log_likelihood(self, samples, map_fn=map_fn)
 
 
 def run_case(case):
